@@ -110,7 +110,9 @@ def szx(chk, prog, ln, m):
     AYSEL = prog.fn_path("rustzx_core", "ZXAyChip::select_reg")
     AYSET = prog.fn_path("rustzx_core", "ZXAyChip::set_regs")
     SETAY = prog.fn_path("rustzx_core", "Emulator::<H>::set_ay_enabled")
-    opaque = [ln.REFRESH, ln.SETBORDER, ln.W7FFD, ln.RAMMUT, ln.WRITE_IO, AYSEL, AYSET, SETAY] + CHST + ([L7] if L7 else [])
+    # the paging latch is followed into load_7ffd / write_7ffd (their map effects stay opaque): the final latch and
+    # lock are judged on the controller state, not on which helper was called
+    opaque = [ln.REFRESH, ln.SETBORDER, ln.REMAP, ln.SWITCH, ln.RAMMUT, ln.WRITE_IO, AYSEL, AYSET, SETAY] + CHST
     for p in prog.fns:
         if p.endswith("decompress_zlib_stream"):
             opaque.append(p)
@@ -213,13 +215,28 @@ def szx(chk, prog, ln, m):
     for r in arms.get("SPCR", []):
         k = "T-TABLE/%s/SPCR" % key
         ctl = ld.final_ctl(prog, ln, r)
-        used = [e for e in r.trace if e.path in (ln.W7FFD, L7)]
+        entered = [e.path[len("enter:"):] for e in r.trace if e.path.startswith("enter:")]
+        used = [e for e in r.trace if e.path.startswith("enter:") and e.path[len("enter:"):] in (ln.W7FFD, L7)
+                and not (e.path[len("enter:"):] == ln.W7FFD and L7 in entered)]
         wio = [e for e in r.trace if e.path == ln.WRITE_IO]
         chk.check(not wio, k + "/no-timed-io", "SPCR replays the ULA port write through write_io: emulated time advances, so the loaded state depends on chunk order")
         want7 = blk(1) if m == "Sinclair128K" else K(0, 8)
-        chk.check(len(used) == 1 and used[0].args[1] is want7 and used[0].path != ln.W7FFD, "T-MUSTDEF/%s/SPCR/paging" % key,
-                  "SPCR applies the paging value %s through %s; documented: byte 1 (0 on 16/48K) regardless of a previous paging lock" % (
+        chk.check(len(used) == 1 and used[0].args[1] is want7, "T-MUSTDEF/%s/SPCR/paging" % key,
+                  "SPCR applies the paging value %s through %s; documented: byte 1 (0 on 16/48K)" % (
                       [tm.show(e.args[1]) if isinstance(e.args[1], T) else e.args[1] for e in used], [e.path.split("::")[-1] for e in used]))
+        if m == "Sinclair128K":
+            latch = ctl.fields[prog.field_index(ln.CTL, "current_port_7ffd")]
+            latch = tm.subst(latch, r.facts) if isinstance(latch, T) and r.facts else latch
+            chk.check(latch is want7 or (isinstance(latch, T) and tm.equiv(latch, want7) is True), "T-MUSTDEF/%s/SPCR/paging-latch" % key,
+                      "after SPCR the paging latch is %s (receiving machine locked: %s); documented chunk byte 1 whatever the machine was doing, incl. a value with the lock bit set" % (
+                          tm.show(latch) if isinstance(latch, T) else latch, c04.cc_decide(r, tm.unop("not", tm.sym("PAGING_ENABLED", 1)))))
+            pe = ctl.fields[prog.field_index(ln.CTL, "paging_enabled")]
+            pe = tm.subst(pe, r.facts) if isinstance(pe, T) and r.facts else pe
+            lockbit = c04.cc_decide(r, tm.cmp("ne", tm.binop("and", want7, K(0x20, 8)), K(0, 8)))
+            chk.check(lockbit is not None and pe is (tm.FALSE if lockbit else tm.TRUE), "T-MUSTDEF/%s/SPCR/paging-lock" % key,
+                      "after SPCR paging_enabled is %s with chunk bit 5 = %s" % (pe, lockbit))
+            rem = [e for e in r.trace if e.path == ln.REMAP]
+            chk.check(len(rem) == 2, "T-MUSTDEF/%s/SPCR/remap" % key, "SPCR on the 128K remaps %d windows; documented: RAM bank at 0xC000 and ROM at 0x0000 from the chunk" % len(rem))
         sb = [e for e in r.trace if e.path == ln.SETBORDER]
         okb = len(sb) == 1 and isinstance(sb[0].args[2], Agg)
         if okb:
